@@ -766,8 +766,10 @@ func validRunStage(c *vh.Ctx, n int) {
 		cases = append(cases, rc.modelLine())
 		impl = append(impl, o.implLine())
 		kept = append(kept, rc)
+		normRunCollect(c, rc, o) // the same run with the record values: normalisation passes in place (c04_norm.go)
 	}
 	c.Correspond("dayloop(valid runs)", cases, impl, 0, 0, func(i int) interface{} { return kept[i].replay(nil) })
+	normRunFlush(c)
 }
 
 // StartYear ≠ year of the first simulated day. The arrays loaded before the loop are those of
@@ -1081,4 +1083,7 @@ func checkC04(c *vh.Ctx) {
 	validRunStage(c, c.N(72, 600))
 	startYearStage(c, c.N(4, 60))
 	errorStreamViaChild(c)
+	// readers + normalisation passes slot by slot (c04_norm.go); after the older stages so that their random streams are unchanged
+	normReaderKernelStage(c, c.N(60, 600))
+	normYearKernelStage(c, c.N(60, 600))
 }
